@@ -825,6 +825,51 @@ impl World {
         Ok(())
     }
 
+    /// Volume: large messages sealed and opened in place, nothing recorded
+    pub fn ev_volume_pump(&mut self, c: usize, n: u32, len: usize, cov: &mut Cov) -> V {
+        let ok = {
+            let sc = self.scs.get(c).and_then(|x| x.as_ref());
+            let rc = self.rcs.get(c).and_then(|x| x.as_ref());
+            match (sc, rc) {
+                (Some(s), Some(r)) => s.real.is_some() && r.real.is_some() && s.ident == r.ident && s.m_seq == r.m_seq && !s.m_over && !r.m_over && s.cfg.suite.aead.seals() && !s.cfg.suite.shim,
+                _ => false,
+            }
+        };
+        if !ok {
+            return Ok(());
+        }
+        let mut buf = vec![0x5Au8; len];
+        for i in 0..n {
+            if len >= 8 {
+                buf[..8].copy_from_slice(&(i as u64).to_le_bytes());
+            }
+            let first = buf[..len.min(16)].to_vec();
+            let tag = {
+                let sc = self.scs[c].as_mut().unwrap();
+                let r = sc.real.as_mut().unwrap().seal_in_place(&mut buf, b"volume");
+                match r {
+                    Ok(t) => {
+                        Self::model_advance(&mut sc.m_seq, &mut sc.m_over);
+                        t
+                    }
+                    Err(f) => return Err(self.viol("volume.seal", format!("Ok: message #{} of {} bytes ({} bytes sealed so far on this context)", i, len, i as u64 * len as u64), format!("Err({})", short(&f)))),
+                }
+            };
+            let rc = self.rcs[c].as_mut().unwrap();
+            match rc.real.as_mut().unwrap().open_in_place(&mut buf, b"volume", &tag) {
+                Ok(()) => Self::model_advance(&mut rc.m_seq, &mut rc.m_over),
+                Err(f) => return Err(self.viol("volume.open", format!("Ok: message #{} of {} bytes opens", i, len), format!("Err({})", short(&f)))),
+            }
+            if buf[..len.min(16)] != first[..] {
+                return Err(self.viol("volume.plaintext", "the plaintext that was sealed".into(), "different bytes".into()));
+            }
+            cov.ops += 2;
+        }
+        cov.hit("probe.volume_beyond_2^32_bytes");
+        cov.sig_event("VolumePump", &format!("{}x{}", n, len));
+        Ok(())
+    }
+
     /// Soak: n rejected deliveries in a row (bugs that count failures in a narrow integer)
     pub fn ev_reject_burst(&mut self, r: usize, from: usize, n: u32, cov: &mut Cov) -> V {
         let (base, aad, nt) = {
@@ -1120,8 +1165,8 @@ impl World {
         if refc.is_none() {
             return Ok(());
         }
-        let names = ["base_nonce", "exporter_secret"];
-        for i in 0..2 {
+        let names = ["base_nonce", "exporter_secret", "exporter_secret-as-hmac-ipad-key", "exporter_secret-as-hmac-opad-key"];
+        for i in 0..4 {
             if !scan.observed(i) {
                 cov.hit(&format!("teardown.unobservable.{}", names[i]));
                 continue;
@@ -1173,8 +1218,15 @@ impl World {
 
 fn pats_of(refc: Option<&refhpke::RefCtx>) -> Vec<Vec<u8>> {
     match refc {
-        Some(r) => vec![r.base_nonce.clone(), r.exporter_secret.clone()],
-        None => vec![vec![], vec![]],
+        // base nonce, exporter secret, and the exporter secret as HMAC would store it as a key
+        // (xor ipad / xor opad) in case a keyed MAC/KDF object is cached inside the context
+        Some(r) => vec![
+            r.base_nonce.clone(),
+            r.exporter_secret.clone(),
+            r.exporter_secret.iter().map(|b| b ^ 0x36).collect(),
+            r.exporter_secret.iter().map(|b| b ^ 0x5c).collect(),
+        ],
+        None => vec![vec![], vec![], vec![], vec![]],
     }
 }
 
